@@ -18,6 +18,13 @@ Exists == Big => Enclosing(ps) # {}
 \* all minimal candidates are the same sphere (same centre)
 Unique == Big => \A s \in Minimals(ps) : \A t \in Minimals(ps) : s.c = t.c
 Contains == Big => \A p \in ps : InSphereC(MinSphere(ps).c, MinSphere(ps).a, p)
+\* Welzl's recursion, for EVERY order of the points: never reaches a degenerate boundary set (three collinear / four coplanar
+\* points: the code would divide by zero) and returns the minimal enclosing sphere
+WelzlNeverDegenerate == \A q \in PermsOf(ps) : Welzl(q, <<>>).k # "bad"
+WelzlMinimal == Big => \A q \in PermsOf(ps) : LET w == Welzl(q, <<>>) IN w.k = "s" /\ w.c = MinSphere(ps).c
+                                                                         /\ N2(Num(w.c, w.a)) * MinSphere(ps).c[4] * MinSphere(ps).c[4]
+                                                                            = N2(Num(MinSphere(ps).c, MinSphere(ps).a)) * w.c[4] * w.c[4]
+WelzlSingle == Cardinality(ps) = 1 => \A q \in PermsOf(ps) : Welzl(q, <<>>) = [k |-> "s", c |-> HPoint(q[1]), a |-> q[1]]
 EmitSphere == (Emit /\ Big) =>
     PrintT(<<"SPHERE", ToJson([pts |-> ps, c |-> MinSphere(ps).c,
                                r2 |-> <<N2(Num(MinSphere(ps).c, MinSphere(ps).a)), MinSphere(ps).c[4] * MinSphere(ps).c[4]>>])>>)
